@@ -7,6 +7,8 @@ BASE = ("Trusted: TLC and the TLA+ semantics of the specification; the hand-writ
         "harness/internal/conc; goyang; the Go toolchain. Bounded: 2 abstract values and 2 keys per list in the model, "
         "concretised over corpus variants covering every key and leaf type (schemas/variants.json).")
 T = "TLA+ spec + TLC exhaustive model checking; every emitted transition/case replayed on the real code (model-based conformance)"
+TT = "TLA+ spec + TLC exhaustive model checking of the state machine; all bounded paths of the emitted state graph replayed on the real code (spec->code) and TLC trace validation of recorded random-driver traces (code->spec)"
+TECH = {"C15": TT, "C34": TT}
 CHECKS = {
  "C01": ("TreeLaws.tla: TLC checks Dec7951(Enc7951(t)) on every well-formed tree of four slices; each tree is rendered with Marshal7951/EmitJSON (with and without module prefixes), unmarshalled into an empty root, compared through the independent projector, and re-rendered byte-for-byte, for compressed/uncompressed and simple/wrapper-union packages.", "8/C01"),
  "C02": ("TreeLaws.tla: notifications model (one plain notification, one atomic per ordered list) and its application checked by TLC on every tree; each tree goes through the real TogNMINotifications (root and prefixed sub-struct) and UnmarshalNotifications into an empty root.", "8/C02"),
@@ -17,6 +19,8 @@ CHECKS = {
  "C12": ("TreeMachine.tla: operational DeleteNode (remove subtree, prune upwards) vs RemovedExactly / idempotence / absent-data laws; every delete transition (leaf, leaf-list, container, presence container, entry, whole list, present or absent) is replayed on the real DeleteNode and the projected tree and GetNode compared.", "8/C12"),
  "C13": ("GnmiSet.tla: a SetRequest executed operation by operation (prefix join, deletes, replaces, updates; scalar, leaf-list and JSON payloads) vs the reference semantics on the path->value map; every completed request of the bounded model is replayed on the real UnmarshalSetRequest with random prefix splits.", "8/C13"),
  "C14": ("TreeLaws.tla: operational bottom-up prune and BuildEmptyTree vs the declarative laws (nothing set is lost, no empty container remains, idempotent, build+prune preserves leaves) on every tree incl. empty containers and ordered lists with nested containers; replayed on the real PruneEmptyBranches/BuildEmptyTree under recover().", "8/C14"),
+ "C15": ("OrderedMap.tla: implementation-shaped state (alloc, keys slice, valueMap) of the generated ordered map and the parent helpers against the reference insertion-ordered unique-key map; TLC checks every call law and emits the complete state graph (3 single and 3 two-part keys); every call sequence up to the tier's length bound is executed on the generated code of every ordered list of the corpus with return values and internal state compared after every call, every read-only call run in every state (returned slices scribbled over), order re-checked through JSON, gNMI and DeepCopy; traces of a model-independent random driver are validated by TLC against TraceOrderedMap.tla.", "8/C15"),
+ "C34": ("KeyedList.tla: the generated New/GetOrCreate/GetOrCreateMap/Get/Append/Delete/Rename helpers as a state machine against the reference key->entry map (duplicates and nil keys rejected without change, GetOrCreate idempotent, Get never creates, Rename moves and rewrites key leaves); full state graph emitted by TLC, all call sequences up to the tier's bound replayed on the helpers of every keyed list (every key type, single and two-key), plus TLC validation of random-driver traces against TraceKeyedList.tla.", "8/C34"),
  "C19": ("TreeLaws.tla Enc7951 plus the reference RFC 7951 encoder (harness/internal/conc): every tree's Marshal7951/EmitJSON output is decoded and compared token by token (JSON kind, 64-bit/decimal64 strings in RFC 7950 lexical form, base64, [null], enum names, identityref and member-name module prefixes) for both AppendModuleName settings.", "8/C19"),
  "C31": ("GnmiSet.tla MergeFrame/MergeDoc: JSON documents assigning up to 2 leaves merged into every reachable tree; replayed on the generated Unmarshal with and without unknown members and IgnoreExtraFields.", "8/C31"),
 }
@@ -28,7 +32,7 @@ def chk(pid, text, ref):
             "evidence_file": "/verif/evidence/%s.json" % pid,
             "replay_cmd_template": "python3 tools/check.py %s --replay {path}" % pid, "engine": "tla-conformance",
             "level_claimed": {"category": "model_checking", "text": text, "design_ref": ref},
-            "level_note": BASE, "technique": T}
+            "level_note": BASE, "technique": TECH.get(pid, T)}
 
 hooks = json.load(open(os.path.join(V, "hooks.json"))) if os.path.exists(os.path.join(V, "hooks.json")) else {"source_commits": []}
 m = {"version": 1, "setup_cmd": "python3 tools/setup.py",
